@@ -137,6 +137,8 @@ pub fn enter(opts: &Options) -> Result<(), String> {
 /// Long-lived helper processes whose pid / executable path / command line stand for callers.
 pub struct Helpers {
     pub procs: Vec<(String, String, String, Child)>, // (name, exe path, cmdline, child)
+    /// current image of helpers that have replaced theirs with `exec` (index -> (name, exe path, cmdline))
+    pub morphed: std::sync::Mutex<std::collections::BTreeMap<usize, (String, String, String)>>,
 }
 
 impl Helpers {
@@ -176,10 +178,69 @@ impl Helpers {
         }
         // give exec a moment so that /proc/<pid>/exe points at the helper
         std::thread::sleep(std::time::Duration::from_millis(30));
-        Ok(Helpers { procs })
+        Ok(Helpers { procs, morphed: Default::default() })
     }
     pub fn pid(&self, i: usize) -> u32 {
         self.procs[i].3.id()
+    }
+    /// (name, exe path, cmdline) of helper `i` as /proc shows it now
+    pub fn ident(&self, i: usize) -> (String, String, String) {
+        if let Some(m) = self.morphed.lock().unwrap().get(&i) {
+            return m.clone();
+        }
+        (self.procs[i].0.clone(), self.procs[i].1.clone(), self.procs[i].2.clone())
+    }
+    /// one more helper that can replace its image: starts as `bin/<a>`, execs `bin/<b>` (and back) on `morph`
+    pub fn spawn_chameleon(&mut self, a: &str, b: &str, args: &[String]) -> Result<usize, String> {
+        let mut src = std::env::current_exe().map_err(|e| e.to_string())?;
+        src.set_file_name("vhelper");
+        for n in [a, b] {
+            let exe = format!("{}/bin/{}", RUN_ROOT, n);
+            if !std::path::Path::new(&exe).exists() {
+                std::fs::copy(&src, &exe).map_err(|e| format!("copy {:?} -> {}: {}", src, exe, e))?;
+            }
+        }
+        let exe = format!("{}/bin/{}", RUN_ROOT, a);
+        let mut cmd = Command::new(&exe);
+        cmd.args(args).env("VHELPER_ALT", format!("{}/bin/{}", RUN_ROOT, b)).stdin(Stdio::null()).stdout(Stdio::null()).stderr(Stdio::null());
+        unsafe {
+            cmd.pre_exec(|| {
+                libc::prctl(libc::PR_SET_PDEATHSIG, libc::SIGKILL);
+                let mut set: libc::sigset_t = std::mem::zeroed();
+                libc::sigemptyset(&mut set);
+                libc::sigaddset(&mut set, libc::SIGUSR1);
+                libc::sigprocmask(libc::SIG_BLOCK, &set, std::ptr::null_mut());
+                Ok(())
+            });
+        }
+        let child = cmd.spawn().map_err(|e| format!("spawn {}: {}", exe, e))?;
+        let cmdline = std::iter::once(exe.clone()).chain(args.iter().cloned()).collect::<Vec<_>>().join(" ");
+        self.procs.push((a.to_string(), exe, cmdline, child));
+        std::thread::sleep(std::time::Duration::from_millis(30));
+        Ok(self.procs.len() - 1)
+    }
+    /// make helper `i` (a chameleon) exec its other image; returns once /proc/<pid>/exe shows it
+    pub fn morph(&self, i: usize) -> Result<(), String> {
+        let pid = self.pid(i);
+        let link = format!("/proc/{}/exe", pid);
+        let before = std::fs::read_link(&link).map_err(|e| e.to_string())?;
+        unsafe { libc::kill(pid as i32, libc::SIGUSR1) };
+        for _ in 0..20000 {
+            std::thread::sleep(std::time::Duration::from_millis(1));
+            if let Ok(now) = std::fs::read_link(&link) {
+                if now != before {
+                    let exe = now.display().to_string();
+                    let name = now.file_name().map(|n| n.to_string_lossy().to_string()).unwrap_or_default();
+                    let args: Vec<String> = std::fs::read(format!("/proc/{}/cmdline", pid)).unwrap_or_default().split(|b| *b == 0).filter(|s| !s.is_empty()).map(|s| String::from_utf8_lossy(s).to_string()).collect();
+                    // the image is there; its argv follows within the exec itself
+                    let cmdline = if args.is_empty() { exe.clone() } else { args.join(" ") };
+                    self.morphed.lock().unwrap().insert(i, (name, exe, cmdline));
+                    std::thread::sleep(std::time::Duration::from_millis(5));
+                    return Ok(());
+                }
+            }
+        }
+        Err(format!("helper {} (pid {}) did not exec its other image", i, pid))
     }
 }
 
